@@ -183,10 +183,69 @@ fn mpc_level(rep: &mut Report, seed: u64, thorough: bool) {
     }
 }
 
+/// One-byte items: chunk headers (8 bytes) at every file offset around the multiples of the read-ahead
+/// buffer (8 KiB). Appends: one chunk that ends exactly at `o`, then short, long and one-item chunks.
+fn byte_offset_part(rep: &mut Report, seed: u64, thorough: bool) {
+    let mut targets: Vec<usize> = vec![];
+    let windows: &[usize] = if thorough { &[4096, 8192, 16384, 24576, 32768, 65536, 131072] } else { &[8192, 16384, 65536] };
+    for w in windows {
+        let r = if thorough || *w == 8192 { 40 } else { 12 };
+        targets.extend((w - r)..=(w + r));
+    }
+    let results = parallel_for(targets.len(), threads(), |i| {
+        let o = targets[i];
+        let mut rng = ChaCha8Rng::seed_from_u64(seed ^ 0xb19 ^ (o as u64) << 8);
+        let lens = [o - 8, 5, rng.random_range(2000..9000), 1, rng.random_range(1..40)];
+        let model: Vec<Vec<u8>> = lens.iter().map(|l| (0..*l).map(|_| rng.random()).collect()).collect();
+        let flat: Vec<u8> = model.iter().flatten().copied().collect();
+        let dir = fresh_scratch_dir("c19b");
+        let mut out = vec![];
+        for (variant, d) in [("memory", None), ("file", Some(dir.as_path()))] {
+            let mut b = match polytune::verif::VerifBufU8::new(d, 0) {
+                Ok(b) => b,
+                Err(e) => return Err(format!("io: {e}")),
+            };
+            for m in &model {
+                if let Err(e) = b.write_chunk(m) {
+                    return Err(format!("io: {e}"));
+                }
+            }
+            for round in 0..2 {
+                let it = b.iter_all();
+                let ch = b.chunks_all(16).map(|c| c.into_iter().flatten().collect::<Vec<u8>>());
+                for (how, got) in [("iter", it), ("chunks", ch)] {
+                    match got {
+                        Ok(g) if g == flat => {}
+                        Ok(g) => out.push(json!({"variant": variant, "read": how, "round": round, "second_chunk_header_at_byte": o, "chunk_lengths": lens, "items_expected": flat.len(), "items_read": g.len(), "first_difference": g.iter().zip(&flat).position(|(a, b)| a != b)})),
+                        Err(e) => out.push(json!({"variant": variant, "read": how, "round": round, "second_chunk_header_at_byte": o, "chunk_lengths": lens, "error": e})),
+                    }
+                }
+            }
+        }
+        let _ = std::fs::remove_dir_all(&dir);
+        Ok(out)
+    });
+    let mut n = 0u64;
+    for (o, r) in targets.iter().zip(results) {
+        rep.evaluations += 1;
+        match r {
+            Err(e) => rep.harness_error(format!("temp-file I/O error of the environment: {e}")),
+            Ok(v) => {
+                n += 1;
+                rep.distinct.insert(format!("bytes: second chunk header at byte {o}"));
+                if let Some(w) = v.into_iter().next() {
+                    rep.violation(format!("one-byte items: the {} variant did not return what was appended ({})", w["variant"].as_str().unwrap_or("?"), w["read"].as_str().unwrap_or("?")), w);
+                }
+            }
+        }
+    }
+    rep.set("byte_offset_sweep_targets", json!(n));
+}
+
 pub fn run(tier: &str, seed: u64) -> i32 {
     let thorough = tier == "thorough";
     let mut rep = Report::new("C19", tier, seed, "exploration");
-    rep.rule = "model-based: every operation sequence of length <= 4 (exhaustive) over {append(1 | c-1 | c | c+1 | 3c), iter(all), iter(take 0 | 1 | c+1 then drop), chunks(all), chunks(take 0 | 1 then drop)} for c in {1,2,5}, plus random sequences up to length 12 and c up to 9, sequences with chunks of 1100..5000 items (reads abandoned with more than a read-ahead buffer left) and three with chunks of tens of MiB, run against a Vec<Vec<u64>> model, the in-memory variant and the temp-file variant of FileOrMemBuf<u64>; afterwards the directory must be empty and the process must not have gained file descriptors. distinct = operation sequences; non-trivial = the sequence contains at least one append and one read".into();
+    rep.rule = "model-based: every operation sequence of length <= 4 (exhaustive) over {append(1 | c-1 | c | c+1 | 3c), iter(all), iter(take 0 | 1 | c+1 then drop), chunks(all), chunks(take 0 | 1 then drop)} for c in {1,2,5}, plus random sequences up to length 12 and c up to 9, sequences with chunks of 1100..5000 items (reads abandoned with more than a read-ahead buffer left) and three with chunks of tens of MiB, run against a Vec<Vec<u64>> model, the in-memory variant and the temp-file variant of FileOrMemBuf<u64>; a sweep with one-byte items (FileOrMemBuf<u8>) that puts a chunk header at every byte offset within 12..40 bytes of the multiples of the 8 KiB read-ahead buffer, read back item-wise and chunk-wise twice from both variants; afterwards the directory must be empty and the process must not have gained file descriptors. distinct = operation sequences; non-trivial = the sequence contains at least one append and one read".into();
     rep.assumptions = vec!["element type u64 (the engine stores serde-serialisable share types the same way)".into(), "mpc level: a few circuits on both sides of the 1000-gate batch boundary under all-memory, all-file and mixed assignments (more role assignments under C01 / C09 / C12)".into()];
     let mut seqs: Vec<(Vec<Op>, usize)> = vec![];
     for c in [1usize, 2, 5] {
@@ -264,6 +323,7 @@ pub fn run(tier: &str, seed: u64) -> i32 {
             }
         }
     }
+    byte_offset_part(&mut rep, seed, thorough);
     mpc_level(&mut rep, seed, thorough);
     rep.set("exhaustive_sequences_len_le_4", json!(exhaustive));
     rep.set("random_sequences", json!(n_rand));
